@@ -135,6 +135,8 @@ Configs ==
           est : EstChoices, estEnc : EncLevels, src : PolicySources] :
      /\ (c.integ = "REQUIRED" => c.enc # "REQUIRED")
      /\ (c.integ = "REQUIRED" /\ IntegScope = "serverFresh" => (c.role = "server" /\ c.mode = "fresh"))
+     \* quick tier: the two extra server dimensions are enumerated with one method list
+     /\ ((c.integ = "REQUIRED" \/ c.src = "hook") /\ IntegScope = "serverFresh" => c.methods = <<"P", "C">>)
      \* only a fresh server handshake consults the per-command hook
      /\ (c.src = "hook" => (c.role = "server" /\ c.mode = "fresh"))
      /\ (c.mode = "fresh" => (c.sess = NoSess /\ c.est = "Honest" /\ c.estEnc = c.enc))
